@@ -22,3 +22,10 @@ func (w *Watcher) VerifPaths() []string {
 func (w *Watcher) VerifEvents() chan fsnotify.Event {
 	return w.fsw.Events
 }
+
+// VerifSetEvents replaces the event channel the watcher polls and returns the previous one.
+func (w *Watcher) VerifSetEvents(ch chan fsnotify.Event) chan fsnotify.Event {
+	old := w.fsw.Events
+	w.fsw.Events = ch
+	return old
+}
